@@ -24,13 +24,18 @@ fn hidden_len(p: usize, lp: usize) -> usize {
 /// hide → (C12) equals the reference construction → (C11) reveal gives the
 /// AVP back.  T = attribute type (kind), P = payload size parameter of
 /// `mk_spec`, S = secret length, LP = length-padding length.
-pub fn hide_body<const S: usize, const LP: usize>(t: u16, p: usize) {
+#[allow(non_snake_case)]
+pub fn hide_body(t: u16, p: usize, S: usize, LP: usize) {
     stubs::touch();
     let sv = mk_spec(t, p);
     let a = from_spec(&sv);
-    let secret: [u8; S] = nd::any();
+    // slices of non-empty arrays (a zero-length array has a dangling base
+    // pointer, which costs CBMC its constant propagation)
+    let secret_buf: [u8; 16] = nd::any();
+    let secret = &secret_buf[..S];
     let rv: [u8; 4] = nd::any();
-    let lp: [u8; LP] = nd::any();
+    let lp_buf: [u8; 16] = nd::any();
+    let lp = &lp_buf[..LP];
     let ap: [u8; 16] = nd::any();
     let ap2: [u8; 16] = nd::any();
     let mut payload = Vec::new();
@@ -40,8 +45,8 @@ pub fn hide_body<const S: usize, const LP: usize>(t: u16, p: usize) {
     let pad = total - (2 + plen + LP);
 
     let rvv: T::RandomVector = rv.into();
-    let h = a.clone().hide(&secret, &rvv, &lp, &ap);
-    let expect = spec_hide(t, &payload, &secret, &rv, &lp, &ap);
+    let h = a.clone().hide(secret, &rvv, lp, &ap);
+    let expect = spec_hide(t, &payload, secret, &rv, lp, &ap);
     match &h {
         AVP::Hidden(hd) => {
             check!(hd.attribute_type == t, "C12: the attribute type of a hidden AVP stays in clear");
@@ -57,14 +62,14 @@ pub fn hide_body<const S: usize, const LP: usize>(t: u16, p: usize) {
         ap3[i] = ap2[i];
         i += 1;
     }
-    let h3 = a.clone().hide(&secret, &rvv, &lp, &ap3);
+    let h3 = a.clone().hide(secret, &rvv, lp, &ap3);
     if let AVP::Hidden(y) = &h3 {
         check!(bytes_eq(&y.value, &expect), "C12: the hidden value depends on nothing but type, value, secret, random vector, length padding and the needed alignment padding");
     }
     std::mem::forget(h3);
 
     // C11: reveal with the same secret and random vector
-    let back = h.reveal(&secret, &rvv);
+    let back = h.reveal(secret, &rvv);
     match &back {
         Ok(b) => check!(sa::same(b, &sv), "C11: revealing a hidden AVP with the same secret and random vector returns the original AVP"),
         Err(_) => check!(false, "C11: revealing a hidden AVP with the same secret and random vector succeeds"),
@@ -103,7 +108,8 @@ pub fn hide_identity_body() {
 /// octets, arbitrary attribute type, secret and random vector.  The per-type
 /// decoding below is `abs_decode` (it logs the type and the sub-reader length
 /// it is handed); natively the real decoders run.
-pub fn reveal_body<const N: usize, const S: usize>() {
+#[allow(non_snake_case)]
+pub fn reveal_body<const N: usize>(S: usize) {
     stubs::touch();
     let t: u16 = nd::any();
     // For a well-formed size the quantifier ranges over the *plaintext*: for
@@ -111,17 +117,18 @@ pub fn reveal_body<const N: usize, const S: usize>() {
     // plaintext", and the replay twin (real MD5) sees the same plaintext as
     // the solver did under the uninterpreted hash.
     let x: [u8; N] = nd::any();
-    let secret: [u8; S] = nd::any();
+    let secret_buf: [u8; 16] = nd::any();
+    let secret = &secret_buf[..S];
     let rv: [u8; 4] = nd::any();
     let aligned = N > 0 && N % 16 == 0;
-    let v: Vec<u8> = if aligned { spec_encrypt(t, &x, &secret, &rv) } else { sym_copy(&x) };
+    let v: Vec<u8> = if aligned { spec_encrypt(t, &x, secret, &rv) } else { sym_copy(&x) };
     check!(v.len() == N, "C13: (harness) hidden value has the intended size");
     let h = AVP::Hidden(T::Hidden {
         attribute_type: t,
         value: sym_copy(&v),
     });
-    let r = h.reveal(&secret, &rv.into());
-    let spec = spec_reveal(t, &v, &secret, &rv);
+    let r = h.reveal(secret, &rv.into());
+    let spec = spec_reveal(t, &v, secret, &rv);
     match &spec {
         Err(_) => check!(r.is_err(), "C13,C12: empty values, values that are not a multiple of 16 octets and decrypted lengths that do not fit inside the value are rejected"),
         Ok((plain, start, end)) => {
@@ -161,14 +168,14 @@ fn unused(_: DE) {}
 macro_rules! hide {
     ($name:ident, $t:expr, $p:expr, $s:expr, $lp:expr) => {
         pub fn $name() {
-            hide_body::<$s, $lp>($t, $p)
+            hide_body($t, $p, $s, $lp)
         }
     };
 }
 macro_rules! reveal {
     ($name:ident, $n:expr, $s:expr) => {
         pub fn $name() {
-            reveal_body::<$n, $s>()
+            reveal_body::<$n>($s)
         }
     };
 }
